@@ -393,6 +393,15 @@ func runHandshake(r *h.Run, prop string) {
 		}
 	} else {
 		w.Probe("start.err")
+		// a refused line stays refused: asking the same client again must not
+		// turn the refusal into an acceptance
+		o2 := r.Do("Start#2", hsTimeout+30*time.Second, func() (any, error) { return cl.Start() })
+		if !o2.Hung && o2.Err == nil {
+			r.Violate("accepted-bad-line", fmt.Sprintf("reference=%q second-start", rd.why), fmt.Sprintf("the first Start refused line %q (%v); the second Start on the same client succeeded", firstLine(actual), o.Err))
+		}
+		if rc := cl.ReattachConfig(); rc != nil && !rd.ok {
+			r.Violate("accepted-bad-line", fmt.Sprintf("reference=%q reattach-config", rd.why), fmt.Sprintf("Start refused line %q but the client hands out a ReattachConfig (%v)", firstLine(actual), rc.Addr))
+		}
 		// C05: the launched process is terminated by then or shortly after
 		if proc != nil {
 			w.Probe("start.err.after-launch")
@@ -406,6 +415,22 @@ func runHandshake(r *h.Run, prop string) {
 		}
 	}
 	_ = startReturned
+	if o.Err == nil {
+		// the host connects (a scripted plugin may refuse or ignore it): whatever
+		// Client() says, the Kill below must still end the process
+		co := r.Do("Client", 60*time.Second, func() (any, error) { return cl.Client() })
+		if co.Hung {
+			r.Violate("hang", "op=Client after-start=ok "+ctx, r.HostStacks("goplugin"))
+			return
+		}
+		if co.Err != nil {
+			w.Probe("client.err-after-start-ok")
+			co2 := r.Do("Client#2", 60*time.Second, func() (any, error) { return cl.Client() })
+			if !co2.Hung && co2.Err == nil && co2.Val == nil {
+				r.Violate("client-ok-without-client", ctx, "the second Client() call returned (nil, nil)")
+			}
+		}
+	}
 	// a later Kill returns promptly and cleans up
 	ko := r.Do("Kill", 150*time.Second, func() (any, error) { cl.Kill(); return nil, nil })
 	if ko.Hung {
